@@ -83,7 +83,11 @@ def run_subtree(item):
             break
 
         prefix = stack.pop()
-        res    = simnet.execute(scn, prefix, base)
+
+        try:
+            res = simnet.execute(scn, prefix, base)
+        except BaseException as exc:
+            raise RuntimeError(f'harness failure in scenario {scn.get("name")!r} base {base} prefix {prefix}: {type(exc).__name__}: {exc}') from exc
 
         st['execs'] += 1
         st['trans'] += res.ntrans
